@@ -368,11 +368,62 @@ def split_anchor(t: Any) -> tuple[Any, Any]:
     return t, None
 
 
+CONV_INTERNAL = {"root", "root.pkg", "root.pkg.mod", "root.pkg.sub", "root.pkg.sub.leaf", "root.pkg.sub.sib", "root.pkg.sub.sib.deep", "root.other", "root.other.thing"}
+CONV_IMPORTER = "root.pkg.sub.leaf"
+# (statement class, names, module part, level) -> importees the property demands for the importer above
+CONV_SAMPLES = [
+    ("Import", ["root.other", "os.path"], None, 0, ["root.other", "os.path"]),
+    ("ImportFrom", ["thing", "nothing"], "root.other", 0, ["root.other.thing", "root.other"]),
+    ("ImportFrom", ["pkg"], "root", 0, ["root.pkg"]),
+    ("ImportFrom", ["sib", "nomod"], None, 1, ["root.pkg.sub.sib", "root.pkg.sub.nomod"]),
+    ("ImportFrom", ["deep", "nothing"], "sib", 1, ["root.pkg.sub.sib.deep", "root.pkg.sub.sib"]),
+    ("ImportFrom", ["x"], "mod", 2, ["root.pkg.mod"]),
+    ("ImportFrom", ["other", "thing"], None, 3, ["root.other", "root.thing"]),
+    ("ImportFrom", ["thing"], "other", 3, ["root.other.thing"]),
+]
+
+
+def run_conv_samples(repo: Repo, gram: dict) -> tuple[str, str]:
+    """The collector interpreted on constant trees (one import statement per form, nested in a function body and an else branch), its
+    records compared with what the property demands.  ("ok" | "bad" | "undecided", detail) - "bad" carries the counterexample."""
+    col = Collector(repo, None)
+    for cls, names, module, level, want in CONV_SAMPLES:
+        if cls not in gram:
+            continue
+        leaf = import_leaf(gram, cls, names, module=module, level=level, symbolic=False)
+        tree = node(gram, "Module", body=[filler(gram, 1), node(gram, "If", test=node(gram, "Name", id="x"), body=[filler(gram, 0)], orelse=[leaf])])
+        try:
+            runs = col.run(tree, "zz", set(CONV_INTERNAL), CONV_IMPORTER)
+        except Unsupported as u:
+            return "undecided", u.msg
+        if len(runs) != 1 or runs[0].outcome != "return" or col.fallbacks:
+            return "undecided", f"{len(runs)} paths / {runs[0].outcome}" if runs else "no run"
+        got = [(importer, importee) for _rec, importer, importee in runs[0].value]
+        if not all(isinstance(a, str) and isinstance(b, str) for a, b in got):
+            return "undecided", "records with symbolic names on constant input"
+        form = f"import {', '.join(names)}" if cls == "Import" else f"from {'.' * level}{module or ''} import {', '.join(names)}"
+        if sorted(got) != sorted((CONV_IMPORTER, w) for w in want):
+            return "bad", f"`{form}` in module `{CONV_IMPORTER}` (internal modules {sorted(CONV_INTERNAL)}) yields the imports {sorted(b for _a, b in got)} from {sorted({a for a, _b in got})} - the property demands {sorted(want)} from ['{CONV_IMPORTER}']"
+    return "ok", ""
+
+
 def run_r2_r3_r4(repo: Repo, res: Result, gram: dict, col: Collector) -> tuple[list[str], str | None]:
     """Returns the import classes that are dispatched at all (usable as leaves for R1) and the fq of the ancestor function seen in R4."""
     fi = col.entry
     key = f"{fi.relpath}::{fi.qualname}"
     wh = where(fi, fi.node)
+    conv = run_conv_samples(repo, gram)
+    res.analysed["conversion_samples"] = conv[0]
+    if conv[0] == "bad":
+        res.add("C02.R3", f"{key} [on constants]", False, conv[1], wh, kind="flow")
+    real_undecide = res.undecide
+
+    def undecide(rule: str, construct: str, detail: str, at: str = "") -> None:
+        """No symbolic verdict: the decision on constants stands in for it when there is one."""
+        if conv[0] == "ok":
+            res.add(rule, construct + " [on constants]", True, f"the symbolic analysis has no verdict ({detail[:200]}); on {len(CONV_SAMPLES)} constant import statements the records are the demanded ones", at or wh, kind="flow")
+        elif conv[0] == "undecided":
+            real_undecide(rule, construct, detail, at)
     usable: list[str] = []
     hierarchy_fq: str | None = None
     n2 = n3 = n4 = 0
@@ -382,7 +433,7 @@ def run_r2_r3_r4(repo: Repo, res: Result, gram: dict, col: Collector) -> tuple[l
         try:
             runs = col.run(case.tree, case.X, case.S, case.F)
         except Unsupported as u:
-            res.undecide("C02.R2", f"{key}::dispatch {cls}", f"the symbolic executor cannot interpret the conversion of ast.{cls}: {u.msg}", u.where() or wh)
+            undecide("C02.R2", f"{key}::dispatch {cls}", f"the symbolic executor cannot interpret the conversion of ast.{cls}: {u.msg}", u.where() or wh)
             n2, n3, n4 = n2 + 4, n3 + 2, n4 + 1  # attempted: the floors must not mask the reason
             continue
         L0 = App("eq", (case.L, 0))
@@ -489,15 +540,15 @@ def run_r2_r3_r4(repo: Repo, res: Result, gram: dict, col: Collector) -> tuple[l
                     problems["from"].append(f"`{form}` names {show(importee)} when {pc}")
                     sites.setdefault("from", rec.site)
         for u in undecided[:1]:
-            res.undecide("C02.R4", f"{key}::{cls} relative anchor", u, wh)
+            undecide("C02.R4", f"{key}::{cls} relative anchor", u, wh)
         odd = [a for r in feasible for a, _v in r.trace if mentions(a, case.S) and not ((a.fn == "in" and a.args[1] == case.S and not mentions(a.args[0], case.S)) or a == App("truthy", (case.S,)))]
         if odd and any(problems[k] for k in ("consult", "from", "plain")):
-            res.undecide("C02.R3", f"{key}::{cls} conversion", f"the internal-module set is consulted in a way the executor cannot relate to `P.n in internal_modules`: {show(odd[0])}", wh)
+            undecide("C02.R3", f"{key}::{cls} conversion", f"the internal-module set is consulted in a way the executor cannot relate to `P.n in internal_modules`: {show(odd[0])}", wh)
             continue
         new_fallbacks = sorted(x for x in col.fallbacks - before if not any(x.startswith(o + " ") for o in col.opaque))
         if new_fallbacks and any(problems.values()):
             # a helper could only be treated as an uninterpreted function: mismatches with the specification may be artefacts of that
-            res.undecide("C02.R3", f"{key}::{cls} conversion", f"part of the conversion cannot be interpreted: {new_fallbacks[0]}", wh)
+            undecide("C02.R3", f"{key}::{cls} conversion", f"part of the conversion cannot be interpreted: {new_fallbacks[0]}", wh)
             continue
 
         def add(rule: str, what: str, kinds: list[str], good: str) -> None:
@@ -974,15 +1025,23 @@ def run_r5_samples(repo: Repo) -> tuple[str, str, str]:
     ancestor, and of a direct child whose parent-child edge takes precedence in today's code, are not judged); no node that is not a
     module.  ("ok" | "bad" | "undecided", detail, where)"""
     g = repo.cls(NXGRAPH, "NetworkxGraph")
-    base = repo.cls(TYPES_MOD, "Import")
     rec_cls = None
-    for c in import_record_classes(repo):
-        init = repo.lookup_method(c, "__init__")
-        if init is not None and len([p for p in init.params]) == 3 and not any(m.is_abstract for m in (repo.lookup_method(c, n) for n in ("importee", "importer", "importee_parent_modules")) if m is not None):
+    for c in sorted(import_record_classes(repo), key=lambda c: c.fq):
+        # the record class that can be made from (importer, importee) alone and reports them back (AbsoluteImport today)
+
+        def probe(it, c=c):
+            r = it.instantiate(c, ["sample.importer", "sample.importee"], {}, None, None)
+            return it.call(it.getattr_value(r, "importer"), [], {}) == "sample.importer" and it.call(it.getattr_value(r, "importee"), [], {}) == "sample.importee"
+
+        try:
+            probes = Explorer(repo, max_runs=5).explore(probe)
+        except Unsupported:
+            continue
+        if len(probes) == 1 and probes[0].outcome == "return" and probes[0].value is True:
             rec_cls = c
             break
     if rec_cls is None:
-        return "undecided", "no import record class with a constructor (importer, importee)", ""
+        return "undecided", "no import record class that can be constructed from (importer, importee)", ""
 
     def parents(n: str) -> list[str]:
         parts = n.split(".")
